@@ -57,12 +57,26 @@ expected(int s, tsk_id_t u, int impute)
     return 0;
 }
 
+/* user allele lists (NULL terminated); "G" never occurs in the tables */
+static const char *ulists[4][5] = { { "C", "A", "", NULL }, { "A", "C", NULL }, { "C", "", NULL }, { "A", "", "C", "G", NULL } };
+static const int ulens[4] = { 3, 2, 2, 4 };
+static int user_list = -1;
+
 static void
 check_variant(const tsk_variant_t *var, int s, const tsk_id_t *nodes, int n, int impute)
 {
     int j, e, any_missing = 0;
     sym_assert(var->site.id == s, "variant is decoded at the requested site");
+    if (user_list >= 0) {
+        sym_assert(var->num_alleles == (tsk_size_t) ulens[user_list], "with a user allele list the alleles are that list");
+        for (j = 0; j < ulens[user_list]; j++) {
+            sym_assert(var->allele_lengths[j] == strlen(ulists[user_list][j])
+                           && (var->allele_lengths[j] == 0 || var->alleles[j][0] == ulists[user_list][j][0]),
+                "with a user allele list the alleles are that list, in its order");
+        }
+    } else {
     sym_assert(var->num_alleles >= 1 && var->allele_lengths[0] == 1 && var->alleles[0][0] == 'A', "alleles[0] is the ancestral state");
+    }
     sym_assert(var->num_samples == (tsk_size_t) n, "one genotype per requested node");
     for (j = 0; j < n; j++) {
         int32_t g = var->genotypes[j];
@@ -86,7 +100,7 @@ run_variant(tsk_treeseq_t *ts, int mode, int impute, int order)
     tsk_variant_t var, cp;
     tsk_id_t nodes[MAXN];
     const tsk_id_t *req = NULL;
-    int ret, n = 0, u, k, nonsample = 0;
+    int ret, n = 0, u, k, nonsample = 0, decoded = 0;
     static const int orders[2][3] = { { 0, 1, 0 }, { 1, 0, -1 } };
 
     if (mode == 0) {
@@ -113,7 +127,7 @@ run_variant(tsk_treeseq_t *ts, int mode, int impute, int order)
     for (k = 0; k < n; k++) {
         nonsample |= !(T.flags[nodes[k]] & TSK_NODE_IS_SAMPLE);
     }
-    ret = tsk_variant_init(&var, ts, req, (tsk_size_t) n, NULL, impute ? TSK_ISOLATED_NOT_MISSING : 0);
+    ret = tsk_variant_init(&var, ts, req, (tsk_size_t) n, user_list >= 0 ? ulists[user_list] : NULL, impute ? TSK_ISOLATED_NOT_MISSING : 0);
     if (req != NULL && nonsample && !impute) {
         /* documented: non-sample nodes can only be decoded with isolated_as_missing=False */
         sym_assert(ret == TSK_ERR_MUST_IMPUTE_NON_SAMPLES, "non-sample nodes require isolated_as_missing=False");
@@ -128,8 +142,36 @@ run_variant(tsk_treeseq_t *ts, int mode, int impute, int order)
             continue;
         }
         ret = tsk_variant_decode(&var, s, 0);
+        if (user_list >= 0) {
+            /* every allele occurring at the site (ancestral state and every derived state) must be in the user list */
+            int need[3] = { 1, 0, 0 }, a, q, all_found = 1, j2;
+            for (j2 = 0; j2 < NM; j2++) {
+                if (msite[j2] == s) {
+                    need[mstate[j2]] = 1;
+                }
+            }
+            for (a = 0; a < 3; a++) {
+                int found = 0;
+                for (q = 0; q < ulens[user_list]; q++) {
+                    found |= strcmp(ulists[user_list][q], states[a]) == 0;
+                }
+                all_found &= !need[a] || found;
+            }
+            if (!all_found) {
+                sym_assert(ret == TSK_ERR_ALLELE_NOT_FOUND, "an allele missing from the user list is an error");
+                sym_reach("allele-not-found");
+                decoded = 0;
+                continue;
+            }
+        }
         sym_assert(ret == 0, "decode");
+        decoded = 1;
         check_variant(&var, s, nodes, n, impute);
+    }
+    if (!decoded) {
+        /* the last decode failed (or there is no site): the variant holds no defined genotypes to copy */
+        tsk_variant_free(&var);
+        return;
     }
     ret = tsk_variant_restricted_copy(&var, &cp);
     sym_assert(ret == 0, "restricted_copy");
@@ -152,6 +194,15 @@ main_c03(void)
         return 0;
     }
     order = sym_choice("order", 0, 1);
+#ifdef USER_ALLELES
+    user_list = sym_choice("ual", 0, 3);
+    run_variant(&ts, 0, 0, order);
+    run_variant(&ts, 1, 1, order);
+    tsk_treeseq_free(&ts);
+    tsk_table_collection_free(&t);
+    SYM_END();
+    return 0;
+#endif
     /* (sample list, isolated_as_missing) combinations, one after the other on the same tree sequence */
     run_variant(&ts, 0, 0, order);
     run_variant(&ts, 0, 1, order);
